@@ -30,8 +30,12 @@ import subprocess
 import sys
 
 TRACE_SET = ("open,openat,creat,rename,renameat,renameat2,mkdir,mkdirat,unlink,unlinkat,rmdir,write,pwrite64,"
-             "read,stat,lstat,newfstatat,statx,getdents64,ftruncate,truncate,link,linkat,symlink,symlinkat")
-KILL_SET = "open,openat,creat,rename,renameat,renameat2,mkdir,mkdirat,unlink,unlinkat,rmdir,write,pwrite64,ftruncate"
+             "read,stat,lstat,newfstatat,statx,getdents64,ftruncate,truncate,link,linkat,symlink,symlinkat,"
+             "sendfile,copy_file_range")
+# sendfile / copy_file_range: how shutil.copyfile fills a file — counted as writes of the destination (a store that falls
+# back from rename to copy, e.g. across file systems, fills the FINAL name this way)
+KILL_SET = ("open,openat,creat,rename,renameat,renameat2,mkdir,mkdirat,unlink,unlinkat,rmdir,write,pwrite64,ftruncate,"
+            "sendfile,copy_file_range")
 KILL_NAMES = set(KILL_SET.split(","))
 
 PY = "/venv/bin/python"
@@ -152,7 +156,7 @@ def _at(dirarg, patharg):
 
 
 ERR = {None: "ok", "ENOENT": "enoent", "EEXIST": "eexist", "ENOTEMPTY": "enotempty", "ENOTDIR": "enotdir",
-       "EISDIR": "eisdir"}
+       "EISDIR": "eisdir", "EXDEV": "exdev"}
 
 DIR_NAMES = re.compile(r"^(C|C/joblib|C/joblib/M|C/joblib/M/F|C/joblib/M/F/E\w+)$")
 
@@ -276,16 +280,17 @@ class Canon:
                             gd_last[fd] = None  # the terminating empty read of a listing already reported
                         else:
                             emit(tid, f"readdir {cp} -", idx)  # directory removed after it was opened
-                elif nm in ("write", "pwrite64", "read"):
-                    fd = int(re.match(r"^(-?\d+)", a[0]).group(1))
+                elif nm in ("write", "pwrite64", "read", "sendfile", "copy_file_range"):
+                    fda = a[2] if nm == "copy_file_range" else a[0]  # the destination descriptor
+                    fd = int(re.match(r"^(-?\d+)", fda).group(1))
                     st = fdstate.get(fd)
                     if st is None:
                         continue
-                    want = {"write": "creat", "pwrite64": "creat", "read": "openr"}[nm]
+                    want = "openr" if nm == "read" else "creat"
                     if st["kind"] != want:
                         continue
                     # the name the open file has NOW (strace -y): a temporary that was renamed meanwhile shows its new name
-                    cur = self.path(_fdpath(a[0])) or st["path"]
+                    cur = self.path(_fdpath(fda)) or st["path"]
                     if not st["used"] or cur != st.get("cur", st["path"]):
                         emit(tid, f"{'write' if want == 'creat' else 'read'} {cur}", idx)
                         st["used"] = True
@@ -345,7 +350,11 @@ def kill_points(calls, canon: Canon):
             else:
                 # a later write(2) of a merged `write P`: still a crash point
                 a = _split_args(c["args"])
-                p = _fdpath(a[0]) if a and c["name"] in ("write", "pwrite64") else None
+                p = None
+                if a and c["name"] in ("write", "pwrite64", "sendfile"):
+                    p = _fdpath(a[0])
+                elif len(a) > 2 and c["name"] == "copy_file_range":
+                    p = _fdpath(a[2])
                 cp = canon.path(p) if p else None
                 if cp is not None:
                     pts.append(dict(when=when, op=f"write+ {cp}", op_index=None))
@@ -393,6 +402,12 @@ def value_epoch(v):
 def _worker(spec):
     import warnings
 
+    if spec.get("tmpdir"):
+        # the environment is an input: where the system temporary folder is (possibly another file system than the cache)
+        import tempfile
+
+        os.environ["TMPDIR"] = spec["tmpdir"]
+        tempfile.tempdir = None
     sys.path.insert(0, spec["repo"])
     sys.path.insert(0, spec["moddir"])
     sys.dont_write_bytecode = True
